@@ -108,6 +108,9 @@ EndOK(E) ==
          /\ (r[2] = "skip" /\ ss) => \E e \in E : e.by = c /\ e.kind = "skip" /\ e.el = r[1] /\ e.under = c
     /\ \A e \in E : e.kind # "skip" => <<e.el, e.kind>> \in RaisedBy(e.by)
     /\ \A c \in Seeded : inst[c] = SeedVal(c) /\ CallsOf(c) = {}
+    \* ... and what the broker really holds for them at the end is the supplied value (not a value loaded
+    \* from the analysed archive or stored by any other route that bypasses the attempt)
+    /\ \A i \in DOMAIN Ev.seeds : Ev.seeds[i].c \in Seeded /\ SameVal(SeedVal(Ev.seeds[i].c), Ev.seeds[i].v)
 
 (* the observed event is a step of DrEngine that keeps C01-C04 *)
 Accepts ==
@@ -139,8 +142,9 @@ DiagAtt ==
     LET c == Ev.c  w == Ev.w IN
     IF ~(w \in DOMAIN cur /\ c \in Comp) THEN "att.shape"
     ELSE IF cur[w] = 0 THEN "att.no-subgraph"
+    ELSE IF c \in Graph /\ c \in Attempted THEN "AtMostOnce.attempted-twice"    \* also when the second attempt is in a foreign sub-graph
     ELSE IF c \notin SubAll(cur[w]) THEN "PartitionExact.foreign-component"
-    ELSE IF c \in AttemptedIn(cur[w]) \/ (c \in Graph /\ c \in Attempted) THEN "AtMostOnce.attempted-twice"
+    ELSE IF c \in AttemptedIn(cur[w]) THEN "AtMostOnce.attempted-twice"
     ELSE IF c \in Graph /\ ~(\A d \in DepSet(c) \cap Graph : d \in Attempted) THEN "DepsBefore"
     ELSE LET e == Eff(inst, c) IN
          IF e.calls # Ev.calls THEN
@@ -184,6 +188,8 @@ DiagEnd ==
     ELSE IF \E c \in Comp : \E r \in RaisedBy(c) :
               r[2] = "skip" /\ ss /\ ~\E e \in E : e.by = c /\ e.kind = "skip" /\ e.el = r[1] /\ e.under = c THEN "SkipRecordedUnderItself"
     ELSE IF \E e \in E : e.kind # "skip" /\ <<e.el, e.kind>> \notin RaisedBy(e.by) THEN "NoPhantomExc"
+    ELSE IF \E i \in DOMAIN Ev.seeds : ~(Ev.seeds[i].c \in Seeded /\ SameVal(SeedVal(Ev.seeds[i].c), Ev.seeds[i].v))
+         THEN "SeedsPreserved.overwritten" \o (IF arch THEN ":archive-context" ELSE "")
     ELSE "SeedsPreserved"
 
 Diagnose ==
